@@ -1,5 +1,6 @@
 """Symbolic executor: calls, contracts, statements, loops, per-function verification."""
 import ast
+import re
 import inspect
 import textwrap
 
@@ -200,6 +201,8 @@ class Interp(ExprMixin):
             return self.call_method(fn.obj, fn.name, args, kwargs, node)
         if isinstance(fn, Closure):
             return self.call_closure(fn, args, kwargs, node)
+        if isinstance(fn, SObj) and self.src.class_has_method(fn.cls, "__call__"):
+            return self.call_method(fn, "__call__", args, kwargs, node)
         if fn is IS_FRESH:
             from .stmts import _m_is_fresh
             return _m_is_fresh(self, args, kwargs, node)
@@ -690,6 +693,17 @@ class Interp(ExprMixin):
             if result is not None:
                 self.ctx.assume(rty.invariant(result))
         post_env = dict(env)
+        # "result == <an existing object>" / "result is <...>" on an object-typed result: the callee returns THAT object
+        # (identity), not a fresh one that happens to be equal
+        if isinstance(result, SObj):
+            for cl in c.ensures:
+                src, _ = self.clause(cl)
+                m_ = re.fullmatch(r"\s*result\s*(==|is)\s*([A-Za-z_][A-Za-z_0-9.]*)\s*", src)
+                if m_:
+                    tgt = self.spec_value(m_.group(2), dict(post_env), old, c.namespace)
+                    if isinstance(tgt, SObj):
+                        result = tgt
+                        break
         post_env["result"] = result
         for cl in c.ensures:
             src, _ = self.clause(cl)
@@ -701,7 +715,14 @@ class Interp(ExprMixin):
                 elif hasattr(v, "fresh"):
                     v.fresh = True
                 continue
-            self.ctx.assume(self.spec_eval(src, post_env, old, c.namespace))
+            try:
+                self.ctx.assume(self.spec_eval(src, post_env, old, c.namespace))
+            except PathEnd:
+                # the callee's postcondition is plainly false in this state: either the contract is wrong or the engine
+                # mis-models the call (e.g. identity of the returned object) - never a silent end of the path
+                self.ctx.oblige("call-live", z3.BoolVal(False), line, assume_after=False,
+                                note=f"{short}: postcondition '{src[:80]}' is consistent with the state at the call")
+                raise
         return result
 
     def exc_class(self, name, modname):
